@@ -84,9 +84,15 @@ def _parse_config_path(config_path: str) -> str:
   spec = importlib.util.find_spec(pkg)  # type: ignore
   if spec is None:
     raise ValueError('Package not found', pkg)
-  file_sys_path = spec.origin
-  # file_sys_path often ends with __init__.py.
-  path = os.path.join(os.path.dirname(file_sys_path), filename)
+  if not spec.submodule_search_locations:
+    # `pkg` names a plain module: there is no package directory to look in.
+    raise ValueError('Not a package', pkg)
+  # Namespace packages have no `origin` (and maybe several directories), so
+  # look through the package's directories rather than next to `__init__.py`.
+  for directory in spec.submodule_search_locations:
+    path = os.path.join(directory, filename)
+    if os.path.isfile(path):
+      break
   return path
 
 # Register TF file reader for Gin's parse_config_file.
